@@ -777,12 +777,28 @@ impl<'a> Exec<'a> {
             return c.clone();
         }
         let plain = Case { faults: vec![], wire: vec![], resolver: Resolver::Directory, expand: None, session: sess, kb_enc: KbEnc::Absent, extra: vec![], ..case.clone() };
+        // a credential whose issuer claims an iss that the directory maps to another key is a
+        // must-reject case by construction (C02), not a control that could be accepted
+        let cred_idx = match &case.base {
+            Base::Cred(i) => Some(*i),
+            Base::Pres(i) => self.pres.get(*i).map(|p| p.cred),
+        };
+        let counts_as_control = cred_idx
+            .and_then(|i| self.scn.creds.get(i))
+            .map(|c| match c {
+                CredSpec::Honest { issuer, .. } | CredSpec::Byz { issuer, .. } => {
+                    self.scn.issuers.get(*issuer).map(|s| self.w.directory.get(&s.iss) == Some(&s.key)).unwrap_or(true)
+                }
+            })
+            .unwrap_or(true);
         let r = match self.deliver(m, &plain, case.fmt) {
             Some((_, vo)) => {
                 self.c07(vo.res(), "verifier", case.base.clone(), Some(&plain));
-                self.rep.count("controls_total");
-                if vo.res().is_ok() {
-                    self.rep.count("controls_accepted");
+                if counts_as_control {
+                    self.rep.count("controls_total");
+                    if vo.res().is_ok() {
+                        self.rep.count("controls_accepted");
+                    }
                 }
                 (vo.res().is_ok(), vo.res().ok().cloned())
             }
